@@ -70,7 +70,7 @@ def run(c, chk):
             if call.callee_name() in ALLOC:
                 sites.append((f, call))
     chk.analysed = {'allocation_sites': len(sites), 'functions_with_sites': len(set(f.name for f, _ in sites))}
-    chk.floor('R18.0 allocation sites', len(sites), 30)
+    chk.floor('R18.0 allocation sites', len(sites), 20)
     chk.ok('R18.0', '%d allocation sites in %d functions' % (len(sites), len(set(f.name for f, _ in sites))),
            ', '.join(sorted(set(f.name for f, _ in sites)))[:300], nontrivial=False)
 
